@@ -432,7 +432,7 @@ Lemma Rhist_vis c p e p' h :
   In p' (vpc c p e) -> Rhist p h -> exists h', hstep h e = Some h' /\ Rhist p' h'.
 Proof.
   unfold hstep. intros H HR. eexists; split; [reflexivity|].
-  destruct e as [ |ok| |ok| |ok| | |ok|ok| |ok|ok|r| |n| | | | |k|k ok| | ]; cbn in *;
+  destruct e as [ |ok| |ok| |ok| | |ok|ok| |ok|ok|r| |n| | | | |k|k ok| | |ok]; cbn in *;
     inv_in H; subst; cbn in *; auto.
   all: try (destruct p; cbn in *; auto; fail).
   - destruct ok; cbn; auto.
@@ -560,7 +560,7 @@ Proof.
   unfold Rghost, vis, wfb, managed, add_none, rc_none, x_none, x_addst, x_eff.
   cbn [s_pc s_rmc s_cdone s_sdone s_rc s_hu s_stale s_phu s_add s_x s_rr].
   intros H (W & H1 & H2 & H3).
-  destruct e as [ |ok| |ok| |ok| | |ok|ok| |ok|ok|r| |n0| | | | |k|k ok| | ];
+  destruct e as [ |ok| |ok| |ok| | |ok|ok| |ok|ok|r| |n0| | | | |k|k ok| | |ok];
     cbn [gstep];
     inv_in H; subst s'; cbn [s_pc s_rmc s_cdone s_sdone s_rc s_hu s_stale s_phu s_add s_x s_rr set_pc] in *.
   all: repeat first
@@ -724,7 +724,7 @@ Proof.
   cbn [s_pc s_rmc s_cdone s_sdone s_rc s_hu s_stale s_phu s_add s_x s_rr].
   intros Hin (W & Hrm & Hn & Hrr).
   destruct (c_timeout c) eqn:Et;
-  destruct e as [ |ok| |ok| |ok| | |ok|ok| |ok|ok|r| |n| | | | |k|k ok| | ];
+  destruct e as [ |ok| |ok| |ok| | |ok|ok| |ok|ok|r| |n| | | | |k|k ok| | |ok];
     cbn [cstep orb];
     inv_in Hin; subst s'; cbn [s_pc s_rmc s_cdone s_sdone s_rc s_hu s_stale s_phu s_add s_x s_rr set_pc] in *.
   all: repeat first
